@@ -35,6 +35,9 @@ CLAIMS = {
  "C12": dict(cat="exploration", tech="rapid history generation over hook sets with one failing hook; reference model of documented hook semantics compared against the global request/wait order",
    text="Generated hook sets (events, weights with ties, shuffled names, kinds, all delete-policy combinations) across histories with a chosen hook failing; order, gating, delete policies and leftovers are compared with a reference model.",
    note="Hook completion is a scripted waiter outcome; simulated world as C01."),
+ "C14": dict(cat="exploration", tech="rapid generation of (schema family x chart tree x values through files and --set x operation sequence); reference schema evaluator over reference-coalesced values; request log and storage snapshot for the no-effect clause",
+   text="Generated schemas on any chart of a three-level tree, values arriving from defaults, parent sections, -f files and --set; template, server dry-run, install, upgrade and lint must reject exactly when the reference evaluator finds a violating enabled chart, naming it and leaving cluster and store untouched; skip-schema-validation is the only way through.",
+   note="Reference evaluator covers exactly the generated schema family; lint judged for the root chart only."),
  "C17": dict(cat="exploration", tech="rapid generation of signed charts and 37 mutation classes over archive / provenance / armor / file name / keyring; round-trip, metamorphic must-reject rules and a differential against an independent reference verifier, through six entry points",
    text="Helm-signed generated charts receive one mutation (tampering, attacker-style composites, non-semantic edits, crafted validly-signed-but-wrong messages) and a keyring variant; accept/reject must match an independent reference verifier and the must-reject rules, and every wrapper (VerifyChart, action.Verify, LocateChart --verify, DownloadTo with VerifyAlways) must fail exactly when Signatory.Verify does.",
    note="Fixed committed RSA keys (generation cannot be seeded); x/crypto openpgp is the trusted primitive; only .tgz names; expired/revoked keys not covered."),
